@@ -193,7 +193,7 @@ def enumerate_small():
 def families(seed, tier):
     rng = random.Random(seed)
     fams = fixed_families()
-    n = 1200 if tier == "quick" else 9000
+    n = 4000 if tier == "quick" else 40000
     for _ in range(n):
         fams.append(gen_family(rng))
     for _ in range(n // 15):
